@@ -8,13 +8,47 @@
      - any two instances working on one DAG agree on a common prefix     [C01_comparable]
    (the reference is a function of the event set: the table entry of an event depends only on
    its ancestry — node_indep — and decisions are unique and monotone — BFT core).
-   For the implementation the statement is C01_full, proved from impl_refines_spec (model run =
-   reference; the L1 invariant of DESIGN 5 C10, owned by the abft model worker). *)
+     - acceptance does not depend on the order (C01_acceptance_order_independent) and the election never
+       errs (C01_election_never_errs): the "accept every event" clause.
+   For the implementation the statement is C01_full; it is proved FROM impl_refines_spec (model run =
+   reference; the L1 invariant of DESIGN 5 C10 for model/AbftRun.v), which is NOT proved: the
+   implementation-level claim is established by testing (5+ real instances per scenario). *)
 From Coq Require Import NArith List.
 From LV Require Import model.VecIndex lib.WSumBft spec.ElectionSpec proofs.BftCore proofs.BftElection
-  proofs.BftMono proofs.BftGraph proofs.BftMain proofs.BftRun proofs.BftProps.
+  proofs.BftMono proofs.BftGraph proofs.BftMain proofs.BftRun proofs.BftFcSpec proofs.BftAccept proofs.BftProps.
 Import ListNotations.
 Local Open Scope N_scope.
+
+(* "accept every event": if the events of a DAG are valid in ONE parents-first order (say the order of
+   creation), every parents-first arrangement of every subset of them (ids not repeated; parents-first
+   makes the subset ancestor-closed) is accepted by the rules as well *)
+Theorem C01_acceptance_order_independent :
+  forall vals D1 D2, all_accepted vals D1 -> incl D2 D1 -> NoDup (ids_of D2) -> parents_first D2 ->
+    all_accepted vals D2.
+Proof. exact acceptance_order_independent. Qed.
+
+(* ... and the election on the accepted events never errs (the four error returns of
+   election.ProcessRoot / chooseAtropos): no root forkless-causes two roots of one validator in a frame,
+   a root of frame f+1 is forkless-caused by a quorum of frame f, and no frame is decided "all no" or
+   "yes without a voted root" *)
+Theorem C01_election_never_errs :
+  forall vals T, wfT vals T -> few_forkers vals T -> (0 < length vals)%nat ->
+  (forall f r r1 r2, In r T ->
+     In r1 (obs node nd_fr nd_spf (fc_n (map snd vals) (quorum_of (map snd vals))) T r f) ->
+     In r2 (obs node nd_fr nd_spf (fc_n (map snd vals) (quorum_of (map snd vals))) T r f) ->
+     nd_cr r1 = nd_cr r2 -> r1 = r2) /\
+  (forall f r, 1 <= f -> In r (roots_at node nd_fr nd_spf T (f + 1)) ->
+     quorum_on node nd_cr nd_fr nd_spf (fc_n (map snd vals) (quorum_of (map snd vals))) (map snd vals)
+               (quorum_of (map snd vals)) T r f = true) /\
+  (forall f0 maxf, 1 <= f0 ->
+     decide node nd_id nd_cr nd_fr nd_spf (fc_n (map snd vals) (quorum_of (map snd vals))) (map snd vals)
+            (quorum_of (map snd vals)) (canon_order vals) T f0 maxf <> AllNo /\
+     decide node nd_id nd_cr nd_fr nd_spf (fc_n (map snd vals) (quorum_of (map snd vals))) (map snd vals)
+            (quorum_of (map snd vals)) (canon_order vals) T f0 maxf <> NoRoot).
+Proof.
+  intros vals T Hwf Hff Hnv.
+  exact (conj (ref_no_two_fork_roots vals T Hwf Hff) (conj (ref_prev_quorum vals T Hwf) (ref_decide_no_error vals T Hwf Hff Hnv))).
+Qed.
 
 Theorem C01_prefix_agreement :
   forall vals D1 D2, all_accepted vals D1 -> all_accepted vals D2 -> incl D1 D2 ->
@@ -44,6 +78,13 @@ Theorem C01_seal_agreement :
     seal_cut k (snd (reference vals D1)) = seal_cut k (snd (reference vals D1')).
 Proof. exact reference_seal_agreement. Qed.
 
+(* several epochs: instances fed the same event set in every epoch (each in its own order) go through the
+   same epochs — same blocks, same sealing decisions, hence (next_vals is a function) same validator sets *)
+Theorem C01_epochs_same_sets :
+  forall seal pol Ds Ds' vals ep, epochs_valid pol vals ep Ds Ds' ->
+    map epoch_blocks (reference_epochs seal pol vals ep Ds) = map epoch_blocks (reference_epochs seal pol vals ep Ds').
+Proof. exact reference_epochs_same_sets. Qed.
+
 (* table level: monotonicity of decisions — the blocks of a well-formed sub-table are a prefix *)
 Theorem C01_blocks_monotone :
   forall vals T1 T2, wfT vals T1 -> wfT vals T2 -> few_forkers vals T2 -> incl T1 T2 ->
@@ -65,12 +106,16 @@ Proof. exact C01_from_refinement. Qed.
 Example C01_example :
   valid_run ex_vals ex_D /\ all_accepted ex_vals ex_D' /\ all_accepted ex_vals ex_Dsub /\
   (incl ex_D' ex_D /\ incl ex_D ex_D') /\ incl ex_Dsub ex_D /\
+  (NoDup (ids_of ex_D') /\ parents_first ex_D') /\ (NoDup (ids_of ex_Dsub) /\ parents_first ex_Dsub) /\
   snd (reference ex_vals ex_D) = [(1, 0, []); (2, 15, [37094])] /\
   snd (reference ex_vals ex_Dsub) = [(1, 0, [])].
-Proof. exact (conj ex_valid (conj ex_accepted' (conj ex_accepted_sub (conj ex_incl' (conj ex_incl_sub (conj ex_blocks ex_blocks_sub)))))). Qed.
+Proof. exact (conj ex_valid (conj ex_accepted' (conj ex_accepted_sub (conj ex_incl' (conj ex_incl_sub (conj ex_arrangement' (conj ex_arrangement_sub (conj ex_blocks ex_blocks_sub)))))))). Qed.
 Example C01_full_satisfiable : C01_full reference.
 Proof. exact (C01_from_refinement reference reference_refines). Qed.
 
+Print Assumptions C01_acceptance_order_independent.
+Print Assumptions C01_election_never_errs.
+Print Assumptions C01_epochs_same_sets.
 Print Assumptions C01_prefix_agreement.
 Print Assumptions C01_same_events.
 Print Assumptions C01_comparable.
